@@ -262,6 +262,34 @@ impl Ctx<'_> {
                     let key = format!("c14:parenthesised-form-disagrees:{opkey}:{form}");
                     self.rep.violation(&key, &format!("`{full}` gave {got_full:?}, expected {}", expect_text(&expected)), "c14", &full);
                 }
+                // both groupings inside one expression (`a - (b - c) == a - b - c`): the parenthesised operand and the bare
+                // chain are different sub-expressions although they spell the same tokens
+                if ops.len() == 2 && spaces && ops.iter().all(|o| level(o) < 11) {
+                    for alt in &alternatives {
+                        let (Ok(va), Ok(vf)) = (eval(alt), &expected) else { continue };
+                        let want = va == *vf;
+                        let alt_text = paren_text(alt, hidden);
+                        for text in [format!("{alt_text} == {flat}"), format!("{flat} == {alt_text}"), format!("{alt_text} != {flat}")] {
+                            let want = if text.contains("!=") { !want } else { want };
+                            self.rep.evaluations += 1;
+                            self.rep.count("twin-grouping-cases");
+                            match real_val(&text) {
+                                Ok(Val::B(b)) if b == want => {}
+                                Err(e) if e == "inconclusive" => self.rep.inconclusive("resource"),
+                                // a constant failure reported at parse time is C04's allowance
+                                Err(e) if !hidden && e.starts_with("error:") && e.contains(" (") => {}
+                                got => {
+                                    self.rep.violation(
+                                        &format!("c14:twin-grouping:{opkey}:{form}"),
+                                        &format!("`{text}` gave {got:?}, expected {want}: `{alt_text}` is {va:?} and `{flat}` groups as `{full}` = {vf:?}"),
+                                        "c14",
+                                        &text,
+                                    );
+                                }
+                            }
+                        }
+                    }
+                }
                 self.rep.sample("chain", 6, || Obj::new().s("flat", &flat).s("documented_grouping", &full).s("expected", &expect_text(&expected)).b("discriminating", discriminating).render());
             }
         }
